@@ -1,5 +1,7 @@
 ------------------------------ MODULE MC_C04 ------------------------------
 EXTENDS HclBody
 MCAttrNames == {"a", "b"}
-MCBlockTypes == {"p", "q"}
+\* the second block type shares its name with an attribute: arguments and blocks live in separate
+\* namespaces (native syntax), and a schema may ask for the same name in both
+MCBlockTypes == {"p", "a"}
 =============================================================================
